@@ -45,6 +45,14 @@ def int_to_seq(v, kind="str", max_digits=None):
 def _int_to_seq_bv(v, kind, md, w):
     """decimal rendering of a bit-vector backed int, entirely in bit-vector arithmetic"""
     c = ctx()
+    # the same symbolic int is always spelled with the same digit variables
+    memo = getattr(c, "render_memo", None)
+    if memo is None:
+        memo = c.render_memo = {}
+    mk = (v.bv.get_id(), kind)
+    hit = memo.get(mk)
+    if hit is not None:
+        return SSeq(kind, list(hit[0]), len(hit[0]))
     neg = False if v.nonneg else bool(v < 0)
     bw = v.bv.size() + 1
     a = z3.SignExt(1, v.bv)
@@ -83,6 +91,9 @@ def _int_to_seq_bv(v, kind, md, w):
         rendered = c.rendered = {}
     absval = (-v) if neg else v
     rendered[tuple(d.get_id() for d in digs)] = (absval, list(digs))
+    full = ([bvv(ord("-"), w)] if neg else []) + digs
+    memo[mk] = (full, v.bv)
+    return SSeq(kind, full, len(full))
     if neg:
         digs.insert(0, bvv(ord("-"), w))
     return SSeq(kind, digs, len(digs))
